@@ -46,6 +46,21 @@ func (bm *blockMetadata) lessByKey(other *blockMetadata) bool {
 	return bm.dataBlock.offset < other.dataBlock.offset
 }
 
+// greaterByKey orders blocks for descending scans: by maxKey descending, then by minKey, seriesID and data
+// block offset. A descending merge needs the block with the largest maxKey first.
+func (bm *blockMetadata) greaterByKey(other *blockMetadata) bool {
+	if bm.maxKey != other.maxKey {
+		return bm.maxKey > other.maxKey
+	}
+	if bm.minKey != other.minKey {
+		return bm.minKey > other.minKey
+	}
+	if bm.seriesID != other.seriesID {
+		return bm.seriesID > other.seriesID
+	}
+	return bm.dataBlock.offset > other.dataBlock.offset
+}
+
 type blockRef struct {
 	primaryIdx int
 	blockIdx   int
@@ -75,7 +90,7 @@ func (sc *seriesCursor) less(other *seriesCursor, asc bool) bool {
 	if asc {
 		return cur.lessByKey(otherCur)
 	}
-	return otherCur.lessByKey(cur)
+	return cur.greaterByKey(otherCur)
 }
 
 func (sc *seriesCursor) init(iter *partKeyIter, sid common.SeriesID, refs []blockRef) {
@@ -94,6 +109,11 @@ func (sc *seriesCursor) init(iter *partKeyIter, sid common.SeriesID, refs []bloc
 		for i, j := 0, len(sc.refs)-1; i < j; i, j = i+1, j-1 {
 			sc.refs[i], sc.refs[j] = sc.refs[j], sc.refs[i]
 		}
+		// Blocks of one series are stored by minKey. After a merge cut a block at the size limit they may
+		// overlap, so the reversed order is not necessarily descending by maxKey, which a descending scan needs.
+		sort.SliceStable(sc.refs, func(i, j int) bool {
+			return sc.refs[i].maxKey > sc.refs[j].maxKey
+		})
 	}
 }
 
